@@ -35,6 +35,12 @@ corresponding `py_*` function of coq/Num/PyNum.v, which carries CPython's dynami
   * `TABLE[k](a, b)` for a configured table of binary functions (fun_tables) in expression
     position; `M.f(x)` for a configured module function (ext_calls: pd.isnull -> py_isnull)
 
+  * `[e for x in it]` (allow_listcomp; one generator, no condition, x used nowhere else) ->
+    py_listcomp of the prelude of Gen/WrapperGen.v; a callee's function-valued parameter (sim_fn of
+    set_sim_join_rows) is passed on from the caller's function parameter of the same name (spec entry
+    ('fun', name, arity)); the free name `py_nan` (np.NaN, rewritten by wrappers.py) -> py_nan
+  The public wrappers (DataFrames as values of Model/Frame.v) are prepared by wrappers.py.
+
 Anything else raises Unsupported, and the caller treats that as a broken tie (never silence).
 """
 import ast
@@ -80,7 +86,7 @@ CMPOPS = {ast.Eq: 'py_eq', ast.NotEq: 'py_ne', ast.Lt: 'py_lt', ast.LtE: 'py_le'
           ast.Gt: 'py_gt', ast.GtE: 'py_ge', ast.In: 'py_in', ast.NotIn: 'py_not_in'}
 BUILTIN1 = {'int': 'py_int', 'float': 'py_float', 'ceil': 'py_ceil', 'floor': 'py_floor',
             'sqrt': 'py_sqrt', 'len': 'py_len', 'list': 'py_list', 'str': 'py_str'}
-GLOBAL_CONSTS = {'maxsize': 'py_maxsize'}
+GLOBAL_CONSTS = {'maxsize': 'py_maxsize', 'py_nan': 'py_nan'}   # py_nan: np.NaN (wrappers.py rewrites the attribute)
 
 
 def assigned_names(stmts):
@@ -139,8 +145,9 @@ class FunTranslator:
     def __init__(self, fn, known_funs=(), attr_params=None, method_params=None,
                  known_sigs=None, attr_allow=None, allow_sets=False,
                  fun_params=None, fun_tables=None, obj_locals=None, fresh_funs=(),
-                 strict_escape=False, ext_calls=None, rename_calls=None):
+                 strict_escape=False, ext_calls=None, rename_calls=None, allow_listcomp=False):
         self.fn = fn
+        self.allow_listcomp = allow_listcomp
         # ext_calls: (module alias, function) -> Coq primitive of one argument (pd.isnull ->
         # py_isnull); the caller has checked the import.  rename_calls: python function name ->
         # name of its generated definition (overlap -> simfunctions_overlap)
@@ -226,7 +233,7 @@ class FunTranslator:
                 if n.keywords or len(n.args) != len(pyparams):
                     raise Unsupported('call of %s: positional arguments only' % n.func.id)
                 for sp in spec:
-                    if sp[0] == 'plain':
+                    if sp[0] in ('plain', 'fun'):
                         continue
                     a = n.args[pyparams.index(sp[1])]
                     if sp[0] == 'attr' and isinstance(a, ast.Name) and a.id in self.obj_locals and \
@@ -343,6 +350,27 @@ class FunTranslator:
             raise Unsupported('attribute ' + ast.dump(n))
         if isinstance(n, ast.Call):
             return self.call(n)
+        if isinstance(n, ast.ListComp):
+            # [e for x in it]: one generator, no condition; x is a name that occurs nowhere else in
+            # the function (a comprehension has its own scope in Python 3).  py_listcomp (prelude of
+            # Gen/WrapperGen.v) evaluates left to right and yields the first exception.
+            if not self.allow_listcomp or len(n.generators) != 1:
+                raise Unsupported('list comprehension')
+            g = n.generators[0]
+            if g.ifs or g.is_async or not isinstance(g.target, ast.Name):
+                raise Unsupported('list comprehension shape')
+            x = g.target.id
+            inside = set(id(m_) for m_ in ast.walk(n))
+            for m_ in ast.walk(self.fn):
+                if isinstance(m_, ast.Name) and m_.id == x and id(m_) not in inside:
+                    raise Unsupported('comprehension variable %s is used elsewhere' % x)
+            if x in self.params or x in self.bound:
+                raise Unsupported('comprehension variable %s shadows a name' % x)
+            it = self.expr(g.iter)
+            self.bound.add(x)
+            body = self.expr(n.elt)
+            self.bound.discard(x)
+            return '(py_listcomp (fun %s => %s) %s)' % (self.v(x), body, it)
         raise Unsupported('expr ' + type(n).__name__)
 
     def call(self, n):
@@ -392,6 +420,13 @@ class FunTranslator:
                 pyparams, spec = self.known_sigs[f]
                 out = []
                 for sp in spec:
+                    if sp[0] == 'fun':
+                        # the callee's function-valued parameter (sim_fn): the caller must have a
+                        # function parameter of the same name and arity, which is passed on
+                        if self.fun_params.get(sp[1]) != sp[2]:
+                            raise Unsupported('%s needs the function parameter %s' % (f, sp[1]))
+                        out.append(self.v(sp[1]))
+                        continue
                     a = args[pyparams.index(sp[1])]
                     if sp[0] == 'plain':
                         out.append(self.expr(a))
@@ -960,6 +995,7 @@ class FunTranslator:
                 raise Unsupported('set-valued name %s is used in an order-sensitive position' % n.id)
 
     allow_set_return = False
+    allow_listcomp = False
 
     def translate(self):
         self.check_no_aliased_mutation()
@@ -991,6 +1027,7 @@ class FunTranslator:
                 self.spec.append(('plain', p))
         self.spec += [('attr', p, a) for (p, a) in self.attr_params]
         self.spec += [('method', p, m) for (p, m) in self.method_params]
+        self.spec += [('fun', f_, ar) for f_, ar in self.fun_params.items()]
         sig = ' '.join('(%s : %s)' % pt for pt in plist)
         return 'Definition %s %s : pyval :=\n%s.\n' % (self.fn.name, sig, body), [p for p, _ in plist]
 
